@@ -46,11 +46,22 @@ REAL_VS_STUB = (
 )
 
 
+VIOLATION_PRINTED = False
+
+
 def log(msg):
+    global VIOLATION_PRINTED
+    if msg.startswith("VIOLATION "):
+        VIOLATION_PRINTED = True
     print(msg, flush=True)
 
 
 def die(msg, code=2):
+    # a harness problem met *after* a violation was already reported must not turn the
+    # exit status into "harness error": the violation stands
+    if VIOLATION_PRINTED:
+        log(f"NOTE: stopped early after reporting the violation(s) above: {msg}")
+        sys.exit(1)
     log(f"HARNESS-ERROR: {msg}")
     sys.exit(code)
 
@@ -104,9 +115,13 @@ def build_cooksim():
 # --------------------------------------------------------------------------- workers
 
 class Batch:
-    """A set of worker processes with a watchdog."""
+    """A set of worker processes with a progress-based watchdog: each worker writes the
+    index of the run it is starting to a progress file; a worker whose progress does not
+    change for `stall_s` seconds (normal run: about a millisecond) is killed and reported
+    with that run index - a real self-deadlock inside the library is a hang of the
+    process, not something shuttle can see."""
 
-    def __init__(self, name, stall_s=180):
+    def __init__(self, name, stall_s=90):
         self.name = name
         self.procs = []
         self.stall_s = stall_s
@@ -114,33 +129,52 @@ class Batch:
         shutil.rmtree(self.dir, ignore_errors=True)
         os.makedirs(self.dir, exist_ok=True)
 
-    def spawn(self, args, tag):
+    def spawn(self, args, tag, progress=False):
         out = os.path.join(self.dir, f"{tag}.json")
         err = open(os.path.join(self.dir, f"{tag}.err"), "w")
-        p = subprocess.Popen([BIN, *args, "--out", out, "--replay-dir", REPLAYS], env=ENV, stdout=err, stderr=err)
-        self.procs.append((p, out, tag, args))
+        prog = os.path.join(self.dir, f"{tag}.progress")
+        extra = ["--progress", prog] if progress else []
+        p = subprocess.Popen([BIN, *args, *extra, "--out", out, "--replay-dir", REPLAYS], env=ENV, stdout=err, stderr=err)
+        self.procs.append(dict(p=p, out=out, tag=tag, args=args, prog=prog if progress else None, last=None, last_t=time.time()))
 
     def wait(self, timeout_s):
-        """Returns (outputs, hung). A worker that exceeds the wall budget is killed
-        and reported with the arguments it was started with (its seed range)."""
+        """Returns (outputs, hung) where hung = [(tag, args, run_index or None)]."""
         outs, hung = [], []
         deadline = time.time() + timeout_s
-        for p, out, tag, args in self.procs:
-            left = max(1.0, deadline - time.time())
-            try:
-                rc = p.wait(timeout=left)
-            except subprocess.TimeoutExpired:
-                p.kill()
-                p.wait()
-                hung.append((tag, args))
-                continue
-            if rc not in (0, 1):
-                errtxt = open(os.path.join(self.dir, f"{tag}.err")).read()[-2000:]
-                die(f"worker {self.name}/{tag} exited with {rc}: {errtxt}")
-            try:
-                outs.append(json.load(open(out)))
-            except Exception as e:  # noqa
-                die(f"worker {self.name}/{tag} wrote no valid output: {e}")
+        live = list(self.procs)
+        while live:
+            time.sleep(0.02 if len(live) < 4 else 0.1)
+            now = time.time()
+            nxt = []
+            for w in live:
+                rc = w["p"].poll()
+                if rc is None:
+                    stalled = False
+                    cur = None
+                    if w["prog"]:
+                        try:
+                            cur = open(w["prog"]).read().strip()
+                        except OSError:
+                            cur = None
+                        if cur != w["last"]:
+                            w["last"], w["last_t"] = cur, now
+                        stalled = now - w["last_t"] > self.stall_s
+                    if stalled or now > deadline:
+                        w["p"].kill()
+                        w["p"].wait()
+                        idx = int(w["last"]) if (w["last"] or "").isdigit() else None
+                        hung.append((w["tag"], w["args"], idx))
+                    else:
+                        nxt.append(w)
+                    continue
+                if rc not in (0, 1):
+                    errtxt = open(os.path.join(self.dir, f"{w['tag']}.err")).read()[-2000:]
+                    die(f"worker {self.name}/{w['tag']} exited with {rc}: {errtxt}")
+                try:
+                    outs.append(json.load(open(w["out"])))
+                except Exception as e:  # noqa
+                    die(f"worker {self.name}/{w['tag']} wrote no valid output: {e}")
+            live = nxt
         return outs, hung
 
     def cleanup(self):
@@ -248,8 +282,8 @@ def write_evidence(prop, tier, seed, level, coverage, assumptions, wall, nviol):
 # --------------------------------------------------------------------------- C18
 
 C18_PLAN = {
-    "quick": dict(runs=20000, scheds=4, cold=128, selftest=192, miri_light=8, miri_full=2, budget=900),
-    "thorough": dict(runs=750000, scheds=4, cold=2048, selftest=2048, miri_light=256, miri_full=48, budget=7200),
+    "quick": dict(runs=20000, scheds=4, cold=128, selftest=192, miri_light=6, miri_full=2, miri_conv=8, budget=900),
+    "thorough": dict(runs=750000, scheds=4, cold=2048, selftest=2048, miri_light=192, miri_full=48, miri_conv=192, budget=7200),
 }
 
 
@@ -270,8 +304,16 @@ def selftest(seed, n, raws):
     outs, hung = b.wait(1200)
     if hung:
         die(f"selftest workers hung: {hung}")
+    found = 0
     for o in outs:
         raws.extend(o["violations"])
+        found += len(o["violations"])
+    if found:
+        # workers stop at violations, so their logs are not comparable; the violations
+        # themselves are reported by the caller
+        b.cleanup()
+        return {"seeds": n, "layouts": layouts, "processes": sum(layouts), "log_items_compared": 0, "divergences": 0,
+                "skipped": f"{found} violation(s) found by the selftest workers themselves"}
     for W in layouts:
         runs = {}
         for w in range(W):
@@ -286,33 +328,51 @@ def selftest(seed, n, raws):
         logs[W] = runs
     base = logs[layouts[0]]
     divergences = 0
+    trace_only = 0
     items = 0
     for W in layouts[1:]:
         for i, lines in logs[W].items():
             ref = base.get(i)
             if ref is None:
-                die(f"selftest: run {i} missing from layout 1")
+                continue  # a worker that found violations stops early; they are reported from `raws`
             items += len(lines)
             if lines != ref:
                 k = next((j for j in range(min(len(lines), len(ref))) if lines[j] != ref[j]), min(len(lines), len(ref)))
                 a = ref[k] if k < len(ref) else "<end>"
                 c = lines[k] if k < len(lines) else "<end>"
-                if a.startswith("O ") or c.startswith("O "):
+                # What differs first?
+                #  - results (R lines, compared as a set because the interleaving may differ): the
+                #    library's *results* depended on the history of the process => C18 violation;
+                #  - only tracing emission (O span / O event and the S trace seams they create): the
+                #    library emitted different spans, e.g. a correct memo that skips work. C18 does not
+                #    speak about tracing; tolerated and counted;
+                #  - an S line or anything else with identical history => harness nondeterminism => exit 2.
+                ra = sorted(x for x in ref if x.startswith(("R ", "O ev ", "O cb_")))
+                rc_ = sorted(x for x in lines if x.startswith(("R ", "O ev ", "O cb_")))
+                soft = a.startswith(("O span", "O event", "S ")) and c.startswith(("O span", "O event", "S ")) and (
+                    a.startswith("O ") or c.startswith("O ") or "trace" in a or "trace" in c)
+                if ra != rc_:
                     divergences += 1
                     os.makedirs(REPLAYS, exist_ok=True)
                     p = os.path.join(REPLAYS, f"C18-crossprocess-{seed}-{i}.json")
+                    da = [x for x in ra if x not in rc_][:2]
+                    dc = [x for x in rc_ if x not in ra][:2]
                     json.dump({"property": "C18", "class": "cross-process-divergence", "violations": [
                         {"class": "cross-process-divergence", "key": "", "phase": "selftest",
-                         "detail": f"run {i}: log item {k} differs between a 1-process and a {W}-process layout: {a!r} vs {c!r}"}],
+                         "detail": f"run {i}: library-produced results differ between a 1-process and a {W}-process layout (same run seed, different process history): {da} vs {dc}; first differing log item {k}: {a!r} vs {c!r}"}],
                         "provenance": {"verif_seed": seed, "salt": 4, "run_index": i, "run_seed": 0, "worker": 0, "workers": W, "sched_index": 0},
-                        "notes": [f"re-run: cooksim c18 --seed {seed} --salt 4 --runs {n} --workers 1 vs --workers {W} with --dump-log and diff"]},
+                        "notes": [f"re-run: cooksim c18 --seed {seed} --salt 4 --runs {n} --scheds 2 --workers 1 --worker 0 --dump-log A.txt and the same with --workers {W} --worker {i % W} --dump-log B.txt; compare the blocks of RUN {i}"]},
                         open(p, "w"), indent=1)
-                    log(f"  cross-process divergence at a library-produced item, run {i}: {a!r} vs {c!r}")
-                    log(f"VIOLATION property=C18 replay={p}")
+                    if divergences <= 3:
+                        log(f"  cross-process divergence in library-produced results, run {i}: {da} vs {dc}")
+                        log(f"VIOLATION property=C18 replay={p}")
+                elif soft:
+                    trace_only += 1
                 else:
                     die(f"selftest: harness nondeterminism, run {i} item {k}: {a!r} vs {c!r} (layouts 1 vs {W})")
     b.cleanup()
-    return {"seeds": n, "layouts": layouts, "processes": sum(layouts), "log_items_compared": items, "divergences": divergences}
+    return {"seeds": n, "layouts": layouts, "processes": sum(layouts), "log_items_compared": items, "divergences": divergences,
+            "runs_differing_only_in_tracing_emission": trace_only}
 
 
 def miri_run(shape, seeds, tier_budget):
@@ -388,13 +448,17 @@ def check_c18(tier, seed):
     batch = Batch("c18")
     for w in range(W):
         batch.spawn(["c18", "--seed", str(seed), "--salt", str(salt), "--runs", str(plan["runs"]), "--worker", str(w),
-                     "--workers", str(W), "--scheds", str(plan["scheds"])], f"w{w}")
+                     "--workers", str(W), "--scheds", str(plan["scheds"])], f"w{w}", progress=True)
     outs, hung = batch.wait(plan["budget"])
-    for tag, args in hung:
+    for tag, args, idx in hung:
         p = os.path.join(REPLAYS, f"C18-hang-{seed}-{tag}.json")
         os.makedirs(REPLAYS, exist_ok=True)
-        json.dump({"property": "C18", "class": "hang", "violations": [{"class": "hang", "key": "", "phase": "perturbed", "detail": f"worker made no progress within {plan['budget']}s; args {args}"}], "notes": ["re-run the worker command to reproduce: cooksim " + " ".join(args)]}, open(p, "w"), indent=1)
-        log(f"  worker {tag} hung (self-deadlock or livelock inside an operation); re-run: cooksim {' '.join(args)}")
+        w = int(tag[1:])
+        json.dump({"property": "C18", "class": "hang",
+                   "provenance": {"verif_seed": seed, "salt": salt, "run_index": idx if idx is not None else 0, "run_seed": 0, "worker": w, "workers": W, "sched_index": 0},
+                   "violations": [{"class": "hang", "key": "", "phase": "perturbed", "detail": f"worker {tag} made no progress for {batch.stall_s}s while executing run index {idx} (self-deadlock or livelock inside an operation)"}],
+                   "notes": ["replay regenerates the scenario of that run index from the provenance and executes it under a wall-clock limit"]}, open(p, "w"), indent=1)
+        log(f"  worker {tag} hung at run index {idx} (self-deadlock or livelock inside an operation)")
         log(f"VIOLATION property=C18 replay={p}")
     agg = dict(runs=0, executions=0, steps=0, switches=0, ops=0, ref_keys=0, overlap_execs=0, nested=0, fresh_build_runs=0,
                hash_seeds=0, maps_created=0)
@@ -420,29 +484,58 @@ def check_c18(tier, seed):
     sim_wall = max([o["wall_s"] for o in outs], default=0.0)
     log(f"[C18] main batch: {agg['runs']} scenarios, {agg['executions']} executions, {agg['steps']} seam points, "
         f"{len(schedules)} distinct interleavings, {agg['overlap_execs']} with overlapping operations, faults {fired}")
-    # ---- cold-start runs: one scenario per fresh process
-    cold = Batch("c18cold")
+    # ---- cold-start runs: one scenario per fresh process, each executed twice - once with
+    # the reference keys observed in forward and once in reverse order. Whatever the library
+    # builds lazily is first touched inside a perturbed scenario, and process-wide state keyed
+    # imprecisely shows up as two fresh processes disagreeing on a reference.
     cold_outs = []
     n_cold = plan["cold"]
+    cold_pairs_compared = 0
+    cold_div = 0
     i = 0
     while i < n_cold:
         chunk = Batch(f"c18cold{i}")
-        for j in range(i, min(i + 4 * NCPU, n_cold)):
-            chunk.spawn(["c18", "--seed", str(seed), "--salt", "3", "--start", str(j), "--runs", "1", "--scheds", "2"], f"c{j}")
+        for j in range(i, min(i + 2 * NCPU, n_cold)):
+            for order in ("fwd", "rev"):
+                chunk.spawn(["c18", "--seed", str(seed), "--salt", "3", "--start", str(j), "--runs", "1", "--scheds", "2",
+                             "--ref-order", order, "--dump-refs", os.path.join(chunk.dir, f"refs-{j}-{order}.txt")], f"c{j}{order}", progress=True)
         o, h = chunk.wait(600)
-        if h:
-            die(f"cold-start workers hung: {h}")
+        for tag, args, idx in h:
+            p = os.path.join(REPLAYS, f"C18-hang-cold-{seed}-{tag}.json")
+            json.dump({"property": "C18", "class": "hang", "provenance": {"verif_seed": seed, "salt": 3, "run_index": idx or 0, "run_seed": 0, "worker": 0, "workers": 1, "sched_index": 0},
+                       "violations": [{"class": "hang", "key": "", "phase": "cold", "detail": f"cold-start process {tag} made no progress for {chunk.stall_s}s"}]}, open(p, "w"), indent=1)
+            log(f"VIOLATION property=C18 replay={p}")
+            cold_div += 1
         cold_outs.extend(o)
+        for j in range(i, min(i + 2 * NCPU, n_cold)):
+            try:
+                fa = sorted(l.rstrip("\n").split("\t", 2)[1:] for l in open(os.path.join(chunk.dir, f"refs-{j}-fwd.txt")))
+                fb = sorted(l.rstrip("\n").split("\t", 2)[1:] for l in open(os.path.join(chunk.dir, f"refs-{j}-rev.txt")))
+            except OSError:
+                continue
+            cold_pairs_compared += 1
+            if fa != fb:
+                cold_div += 1
+                diff = [x for x in fa if x not in fb][:3]
+                p = os.path.join(REPLAYS, f"C18-cold-order-{seed}-{j}.json")
+                json.dump({"property": "C18", "class": "history-dependence",
+                           "provenance": {"verif_seed": seed, "salt": 3, "run_index": j, "run_seed": 0, "worker": 0, "workers": 1, "sched_index": 0},
+                           "violations": [{"class": "history-dependence", "key": str(diff), "phase": "cold",
+                                           "detail": f"two fresh processes that observe the reference keys of run {j} in forward and in reverse order disagree on {len([x for x in fa if x not in fb])} fingerprint(s): {diff}"}],
+                           "notes": [f"replay: {BIN} c18 --seed {seed} --salt 3 --start {j} --runs 1 --ref-order fwd --dump-refs A.txt ; same with --ref-order rev --dump-refs B.txt ; sort and diff A.txt B.txt"]},
+                          open(p, "w"), indent=1)
+                if cold_div <= 3:
+                    log(f"  cold-start run {j}: clean references depend on the order in which they are first observed in a fresh process: {diff}")
+                    log(f"VIOLATION property=C18 replay={p}")
         chunk.cleanup()
-        i += 4 * NCPU
-    cold.cleanup()
+        i += 2 * NCPU
     cold_execs = sum(o["executions"] for o in cold_outs)
     for o in cold_outs:
         raws.extend(o["violations"])
         merge_counts(fired, o["fired"])
         nontrivial.update(o["nontrivial_hashes"])
         schedules.update(o["schedule_hashes"])
-    log(f"[C18] cold-start: {len(cold_outs)} fresh processes, {cold_execs} executions")
+    log(f"[C18] cold-start: {len(cold_outs)} fresh processes, {cold_execs} executions, {cold_pairs_compared} forward/reverse reference tables compared")
     # ---- determinism selftest / cross-process oracle (O4)
     st = selftest(seed, plan["selftest"], raws)
     log(f"[C18] selftest: {st}")
@@ -453,8 +546,9 @@ def check_c18(tier, seed):
         base = (seed * 1000003) % 1000000
         lo, lf = miri_run("light", [base + k for k in range(plan["miri_light"])], plan["budget"])
         fo, ff = miri_run("full", [base + 5000 + k for k in range(plan["miri_full"])], plan["budget"])
-        miri["light_seeds"], miri["full_seeds"] = lo, fo
-        for shape, s, txt in lf + ff:
+        co, cf = miri_run("conv", [base + 9000 + k for k in range(plan["miri_conv"])], plan["budget"])
+        miri["light_seeds"], miri["full_seeds"], miri["conv_seeds"] = lo, fo, co
+        for shape, s, txt in lf + ff + cf:
             miri_viol += 1
             ub = "Undefined Behavior" in txt
             miri["ub_reports"] += ub
@@ -467,8 +561,8 @@ def check_c18(tier, seed):
                 log(f"  Miri {shape} seed {s}: {'undefined behaviour' if ub else 'mismatch / failure'}")
                 log("  " + txt.strip().splitlines()[-1][:300] if txt.strip() else "")
                 log(f"VIOLATION property=C18 replay={p}")
-        log(f"[C18] Miri: {lo} light + {fo} full seeds clean, {miri_viol} failing")
-    unlisted = report("C18", raws) + len(hung) + st["divergences"] + miri_viol
+        log(f"[C18] Miri: {lo} light + {fo} full + {co} conv seeds clean, {miri_viol} failing")
+    unlisted = report("C18", raws) + len(hung) + st["divergences"] + miri_viol + cold_div
     wall = time.time() - t0
     execs = agg["executions"] + cold_execs
     coverage = {
@@ -482,7 +576,8 @@ def check_c18(tier, seed):
         "distinct_scenarios": len(scenarios),
         "distinct_interleavings": len(schedules),
         "interleaving_measure": "hash of the sequence of (task id, seam kind) at every seam point of the perturbed phase",
-        "cold_start_runs": len(cold_outs),
+        "cold_start_processes": len(cold_outs),
+        "cold_start_reference_order_pairs": cold_pairs_compared,
         "sched_steps_total": agg["steps"],
         "context_switches_total": agg["switches"],
         "operations": agg["ops"],
@@ -540,7 +635,7 @@ def check_c11(tier, seed):
                      "--worker", str(w), "--workers", str(W)], f"y{w}")
     outs, hung = batch.wait(plan["budget"])
     raws = []
-    for tag, args in hung:
+    for tag, args, _idx in hung:
         p = os.path.join(REPLAYS, f"C11-hang-{seed}-{tag}.json")
         os.makedirs(REPLAYS, exist_ok=True)
         json.dump({"property": "C11", "class": "hang", "violations": [{"class": "hang", "key": "", "phase": "c11", "detail": f"worker exceeded {plan['budget']}s; args {args}"}]}, open(p, "w"), indent=1)
